@@ -39,6 +39,9 @@ class ColumnLineageMixin:
             }
         columns = set()
         for source, target in itertools.product(source_columns, target_columns):
+            if source == target:
+                # a column that nothing feeds and that feeds nothing is no lineage: a path needs at least one hop
+                continue
             simple_paths = list(nx.all_simple_paths(self.graph, source, target))
             for path in simple_paths:
                 if exclude_subquery_columns:
